@@ -180,10 +180,15 @@ func ReadResponse(r *bufio.Reader) (*Response, error) {
 
 	// 读取Body
 	cl := resp.Header.Int(FieldContentLength)
+	if cl > maxContentLength { // 拒绝荒谬的长度，避免按对端声明的大小分配内存
+		return nil, &badStringError{"Content-Length over the maximum length", strconv.Itoa(cl)}
+	}
 	if cl > 0 {
 		// 读取 n 字节的字串Body
 		body := make([]byte, cl)
-		_, err = io.ReadFull(r, body)
+		if _, err = io.ReadFull(r, body); err != nil {
+			return nil, err
+		}
 		resp.Body = string(body)
 	}
 	return resp, nil
